@@ -31,8 +31,10 @@ static secp256k1_scalar gen(int below_n) {
     if (below_n) { big b = from_sc(&s); if (bcmp_(&b, &BN) >= 0) { b = bsub(&b, &BN); memcpy(s.d, b.w, 32); } }
     return s;
 }
-static void one(void) {
-    secp256k1_scalar a = gen(0), an = gen(1), bn = gen(1), r; big A = from_sc(&a), An = from_sc(&an), Bn = from_sc(&bn), H = bhalfN(), R, T;
+static void run_with(secp256k1_scalar a, secp256k1_scalar an, secp256k1_scalar bn);
+static void one(void) { run_with(gen(0), gen(1), gen(1)); }
+static void run_with(secp256k1_scalar a, secp256k1_scalar an, secp256k1_scalar bn) {
+    secp256k1_scalar r; big A = from_sc(&a), An = from_sc(&an), Bn = from_sc(&bn), H = bhalfN(), R, T;
     inputs++;
     if (secp256k1_scalar_check_overflow(&a) != (bcmp_(&A, &BN) >= 0)) fail("check_overflow(a) != (a >= N)", &a, 0);
     if (secp256k1_scalar_is_high(&a) != (bcmp_(&A, &H) > 0)) fail("is_high(a) != (a > (N-1)/2)", &a, 0);
@@ -48,7 +50,15 @@ static void one(void) {
 int main(int argc, char** argv) {
     unsigned long long n = 200000; S = 1;
     if (argc >= 3 && !strcmp(argv[1], "--diff")) { n = strtoull(argv[2], 0, 10); if (argc > 3) S = strtoull(argv[3], 0, 10); }
-    else if (argc >= 3 && !strcmp(argv[1], "--cex")) { if (argc > 3) S = strtoull(argv[3], 0, 10); }
+    else if (argc >= 3 && !strcmp(argv[1], "--cex")) {
+        /* counterexample from the verifier: every object with limbs d[0..3] in the trace is tried as input scalar */
+        char path[4096], line[1024]; snprintf(path, sizeof path, "%s.kv", argv[2]); FILE* f = fopen(path, "r");
+        secp256k1_scalar sc[16]; char names[16][64]; int ns = 0; memset(sc, 0, sizeof sc);
+        while (f && fgets(line, sizeof line, f)) { char obj[64]; int k; unsigned long long v; char* dot = strstr(line, ".d["); if (!dot) continue; size_t ol = dot - line; if (ol >= 64) continue; memcpy(obj, line, ol); obj[ol] = 0;
+            if (sscanf(dot, ".d[%dl]\t%llu", &k, &v) != 2 || k < 0 || k > 3) continue; int i; for (i = 0; i < ns; i++) if (!strcmp(names[i], obj)) break; if (i == ns) { if (ns == 16) continue; strcpy(names[ns++], obj); } sc[i].d[k] = v; }
+        if (f) fclose(f);
+        for (int i = 0; i < ns; i++) { secp256k1_scalar lo = sc[i]; big b = from_sc(&lo); if (bcmp_(&b, &BN) >= 0) { b = bsub(&b, &BN); memcpy(lo.d, b.w, 32); } for (int j = 0; j < ns; j++) { secp256k1_scalar lo2 = sc[j]; big b2 = from_sc(&lo2); if (bcmp_(&b2, &BN) >= 0) { b2 = bsub(&b2, &BN); memcpy(lo2.d, b2.w, 32); } run_with(sc[i], lo, lo2); } }
+        if (argc > 3) S = strtoull(argv[3], 0, 10); }
     for (unsigned long long i = 0; i < n; i++) one();
     printf("DIFF inputs=%llu disagreements=0 real_violations=%llu\n", inputs, bad);
     return bad ? 1 : 0;
